@@ -48,8 +48,9 @@ LOCS = ("SCHEMA | SCALAR | OBJECT | FIELD_DEFINITION | ARGUMENT_DEFINITION | INT
 class Inst:
     """One directive application @tK(n: "<id>", k: <int or default>)."""
 
-    def __init__(self, dname, iid, k=None, kvar=None):
+    def __init__(self, dname, iid, k=None, kvar=None, e=None, o=None):
         self.d, self.id, self.k, self.kvar = dname, iid, k, kvar
+        self.e, self.o = e, o  # enum-typed / input-object-typed arguments given explicitly (else defaulted)
 
     def sdl(self):
         s = '@%s(n: "%s"' % (self.d, self.id)
@@ -57,6 +58,10 @@ class Inst:
             s += ", k: $%s" % self.kvar
         elif self.k is not None:
             s += ", k: %d" % self.k
+        if self.e is not None:
+            s += ", e: %s" % self.e
+        if self.o is not None:
+            s += ", o: {y: %s}" % self.o
         return s + ")"
 
     def args(self, variables, arr=None):
@@ -73,6 +78,11 @@ class Inst:
             for au in reversed(arr.at.get("A", [])):
                 a = tag_in(au.id, a)
             out["a"] = a
+        if self.d in DIRS:
+            # enum-typed and input-object-typed directive arguments (explicit or defaulted, with the
+            # input object's own field defaults filled in)
+            out["e"] = self.e if self.e is not None else "X"
+            out["o"] = {"x": 3, "y": self.o} if self.o is not None else {"x": 1, "y": "X"}
         return out
 
 
@@ -95,7 +105,13 @@ class Arr:
             for d in names:
                 self.n += 1
                 k = t.choose([None, None, 1, 7])
-                out.append(Inst(d, "%s%d" % (key.replace(".", "_"), self.n), k))
+                inst = Inst(d, "%s%d" % (key.replace(".", "_"), self.n), k)
+                xt = getattr(self, "xt", None)
+                if xt is not None and xt.chance(25):
+                    inst.e = xt.choose(["X", "Y"])
+                if xt is not None and xt.chance(20):
+                    inst.o = xt.choose(["X", "Y"])
+                out.append(inst)
         self.at[key] = out
         return out
 
@@ -185,6 +201,7 @@ class S:
 def build(tape):
     t = tape.sub("schema")
     a = Arr(t)
+    a.xt = tape.sub("dargs")
     a.at["A"] = []
     for _ in range(t.weighted([(2, 0), (2, 1), (1, 2)])):
         a.n += 1
@@ -192,21 +209,59 @@ def build(tape):
     for key in ("schema", "S", "E", "E.A", "E.B", "In", "In.f", "In.g", "In.l", "In.sub", "echo.a", "echo.i", "echo.e", "echo.l",
                 "Query.echo", "Query.o", "Query.u", "O", "O.s", "O.e", "O.l", "P", "P.s", "F", "U"):
         a.gen(key)
-    sdl = "\n".join("directive @%s(n: String!, k: Int = 5, a: A = \"z\") on %s" % (d, LOCS) for d in DIRS) + """
+    xt = tape.sub("ext")
+    exts = []
+
+    def split(key, kind_kw, name):
+        """Directive applications of a type: a prefix stays on the definition, the rest moves to an
+        `extend` definition (which may only add directives that are not applied already)."""
+        insts = a.at.get(key, [])
+        if insts and xt.chance(35):
+            j = xt.rint(0, len(insts) - 1)
+            head, tail = insts[:j], insts[j:]
+            tn = [i.d for i in tail]
+            if len(set(tn)) == len(tn) and not (set(tn) & {i.d for i in head}):
+                exts.append("extend %s%s%s" % (kind_kw, (" " + name) if name else "", "".join(" " + i.sdl() for i in tail)))
+                return "".join(" " + i.sdl() for i in head)
+        return a.s(key)
+
+    def moved(chunk_if_moved, text_if_kept, pct=25):
+        """A member either stays in its definition or moves (with its directives) to an extension."""
+        if xt.chance(pct):
+            exts.append(chunk_if_moved)
+            return ""
+        return text_if_kept
+
+    d_A, d_S, d_E, d_In, d_F = split("A", "scalar", "A"), split("S", "scalar", "S"), split("E", "enum", "E"), split("In", "input", "In"), split("F", "interface", "F")
+    d_O, d_P, d_U, d_schema = split("O", "type", "O"), split("P", "type", "P"), split("U", "union", "U"), split("schema", "schema", "")
+    e_B = moved("extend enum E { B%s }" % a.s("E.B"), " B%s" % a.s("E.B"))
+    in_sub = moved("extend input In { sub: In%s }" % a.s("In.sub"), " sub: In%s" % a.s("In.sub"))
+    o_l = moved("extend type O { l: [S]%s }" % a.s("O.l"), " l: [S]%s" % a.s("O.l"))
+    p_impl = moved("extend type P implements F", " implements F", 20)
+    u_p = moved("extend union U = P", " | P", 20)
+    q_u = moved("extend type Query { u: [U]%s }" % a.s("Query.u"), "  u: [U]%s" % a.s("Query.u"))
+    sdl = "\n".join("directive @%s(n: String!, k: Int = 5, a: A = \"z\", e: K = X, o: KI = {x: 1}) on %s" % (d, LOCS) for d in DIRS) + """
 directive @au(n: String!, k: Int = 5) on SCALAR
+enum K { X Y }
+input KI { x: Int = 3, y: K = X }
 scalar A%s
 scalar S%s
-enum E%s { A%s B%s C }
-input In%s { f: S%s g: E%s l: [S!]%s sub: In%s }
+enum E%s { A%s%s C }
+input In%s { f: S%s g: E%s l: [S!]%s%s }
 interface F%s { s: S }
-type O implements F%s { s: S%s e: E%s l: [S]%s }
-type P implements F%s { s: S%s }
-union U%s = O | P
-type Query { echo(a: S%s, i: In%s, e: E%s, l: [S!]%s): String%s  o: O%s  u: [U]%s  fs: [F] }
+type O implements F%s { s: S%s e: E%s%s }
+type P%s%s { s: S%s }
+union U%s = O%s
+type Query { echo(a: S%s, i: In%s, e: E%s, l: [S!]%s): String%s  o: O%s%s  fs: [F] }
 schema%s { query: Query }
-""" % (a.s("A"), a.s("S"), a.s("E"), a.s("E.A"), a.s("E.B"), a.s("In"), a.s("In.f"), a.s("In.g"), a.s("In.l"), a.s("In.sub"), a.s("F"),
-       a.s("O"), a.s("O.s"), a.s("O.e"), a.s("O.l"), a.s("P"), a.s("P.s"), a.s("U"),
-       a.s("echo.a"), a.s("echo.i"), a.s("echo.e"), a.s("echo.l"), a.s("Query.echo"), a.s("Query.o"), a.s("Query.u"), a.s("schema"))
+""" % (d_A, d_S, d_E, a.s("E.A"), e_B, d_In, a.s("In.f"), a.s("In.g"), a.s("In.l"), in_sub, d_F,
+       d_O, a.s("O.s"), a.s("O.e"), o_l, p_impl, d_P, a.s("P.s"), d_U, u_p,
+       a.s("echo.a"), a.s("echo.i"), a.s("echo.e"), a.s("echo.l"), a.s("Query.echo"), a.s("Query.o"), q_u, d_schema)
+    if exts:
+        exts = xt.shuffle(exts)
+        cut = xt.rint(0, len(exts)) if xt.chance(40) else 0
+        sdl = "\n".join(exts[:cut]) + "\n" + sdl + "\n".join(exts[cut:]) + "\n"
+    a.n_exts = len(exts)
     return a, sdl
 
 
